@@ -245,8 +245,17 @@ func runXR(s *sim.Sim, res *runner.Result) {
 			}
 			// (3) the XR's connection secret
 			if x.WriteConn {
-				if sc.Create(ctx, mk("v1", "Secret", "default", x.Name+"-conn", map[string]any{"type": "Opaque", "data": map[string]any{"theirs": "c2VjcmV0"}})) == nil {
-					g.place(simapi.ObjKey{Kind: "Secret", NS: "default", Name: x.Name + "-conn"}, "xr-connection-secret")
+				sec := mk("v1", "Secret", "default", x.Name+"-conn", map[string]any{"type": "Opaque", "data": map[string]any{"theirs": "c2VjcmV0"}})
+				label := "xr-connection-secret"
+				if s.Tape.Next(2) == 0 {
+					// the secret an earlier XR of the same name left behind: its controller
+					// has this XR's type and name, and another UID
+					sec.Object["type"] = "connection.crossplane.io/v1alpha1"
+					_ = unstructured.SetNestedSlice(sec.Object, []any{map[string]any{"apiVersion": "example.org/v1", "kind": "XThing", "name": x.Name, "uid": "an-earlier-xr-of-that-name", "controller": true, "blockOwnerDeletion": true}}, "metadata", "ownerReferences")
+					label = "xr-connection-secret/of-an-earlier-xr-of-that-name"
+				}
+				if sc.Create(ctx, sec) == nil {
+					g.place(simapi.ObjKey{Kind: "Secret", NS: "default", Name: x.Name + "-conn"}, label)
 				}
 			}
 		},
